@@ -363,6 +363,15 @@ def c11_case(task):
     root = os.path.join(d, 'ws')
     files = {'f': (b'a\nb\nc\n', 0o644), 'g': (b'', 0o644)}
     good = b'--- a/f\n+++ b/f\n@@ -1,3 +1,3 @@\n a\n-b\n+B\n c\n'
+    if kind == 'ws':   # a whole generated workspace: (files, patches, series lines, class label, description)
+        files, wpatches, wseries, wlabel, whow = payload
+        ws.make_ws(root, files, wpatches, wseries)
+        o = ws.run_rq(root, ['-a'], threads=threads, trace=os.path.join(d, 'trace'), timeout=300, mem_limit=1 << 30, cpu_limit=60)
+        out = {'evals': 1, 'violations': [], 'outcomes': {kind + ':exit-' + o.cls: 1}, 'nontrivial': 1}
+        if o.cls not in ('0', '1'):
+            out['violations'].append((wlabel + ('+threads>1' if threads > 1 else '+threads=1'), o.cls,
+                                      {'kind': 'generated', 'how': whow, 'args': ['-a'], 'threads': threads, 'expected': 'exit 0 or 1 (RLIMIT_AS 1 GiB, 60 s of processor time)', 'observed': o.cls, 'stderr': common.b2s(o.err[-300:])}))
+        return out
     if kind == 'patch':
         label = None
         if isinstance(payload, tuple):   # (files, patch[, class label]): a workspace of its own
@@ -462,6 +471,20 @@ def run_c11(tier, seed, res):
         # (on the file the shapes were derived from: a mismatch somewhere in otherwise matching lines)
         inputs.append(({'f': m_sh.files()['e/i'], 'g': (b'', 0o644)}, fp.text().replace(b'e/i', b'f'), 'failing-hunk-shape'))
     tasks = [('patch', inp, 1 + (i % 2)) for i, inp in enumerate(inputs)]
+    # a failing patch with 1500 sections for one file behind 1500 patches (with long names) that each touched it: every failing
+    # section lists the earlier patches that touched its file and tries out whether taking one of them back would help
+    nn = 1500
+    wp, wl, cur = {}, [], b'a'
+    for i in range(nn):
+        nm = 'p%04d-%s.patch' % (i, 'x' * 180)
+        nxt = b'b' if cur == b'a' else b'a'
+        wp[nm] = b'--- a/f\n+++ b/f\n@@ -1 +1 @@\n-' + cur + b'\n+' + nxt + b'\n'
+        wl.append(nm)
+        cur = nxt
+    wp['last.patch'] = b'--- a/f\n+++ b/f\n@@ -1 +1 @@\n-zz\n+y\n' * nn
+    wl.append('last.patch')
+    for t in (1, 2):
+        tasks.append(('ws', ({'f': (b'a\n', 0o644)}, wp, wl, 'failing-patch-with-many-sections-behind-many-patches-on-the-file', '%d patches (names of 190 bytes) that change the one line of f to and fro, then a patch with %d sections for f that all fail; default verbosity' % (nn, nn)), t))
     maxlen = 2 if tier == 'quick' else 3
     for l in range(1, maxlen + 1):
         for combo in itertools.product(SERIES_TOKENS, repeat=l):
